@@ -227,6 +227,8 @@ def sym_real_model(ctx, cfg):
     B.CHUNK_SIZE_ROWS_PREDICTION = B.CHUNK_SIZE_READ_ALL_DATA = n + 1
     stubs.MODE[0] = "submission"
     B.update_labels = lambda fn, s_, tc, fdr: symnp.SArray([0] * len(s_), symnp.float64)
+    # other harnesses that ran in this worker process may have left their stubs behind: this one needs the real ones
+    B.calibrate_scores, B._predict, B._fit_model = brewlib.ORIG["calibrate_scores"], brewlib.ORIG["_predict"], brewlib.ORIG["_fit_model"]
     Est = _id_estimator()
     M.clone = lambda e: e if getattr(e, "is_scaler", False) else Est(e.tag)
     fdr = z3.Real("train_fdr")
